@@ -46,6 +46,145 @@ def kernel(e):
     return None
 
 
+class _Unknown(Exception):
+    pass
+
+
+def decision_table(f, L, roles, paths, eff, hwe, want_fields, epfield):
+    """same_position evaluated over a finite abstraction of two boards: per state field compared `equal?`, the hash
+    without en passant `equal?`, each board's raw en-passant file in {None, a, b} and its effective file in {None, raw}.
+    Admissible abstractions: equal fields and equal raw files give equal effective files (the helper reads nothing
+    else), equal fields give equal hashes without en passant (C10).  The answer must be
+    `all fields equal & hashes-without-ep equal & effective files equal` on every admissible abstraction.
+    -> (True, n) | (False, description) | (None, reason) when a decision cannot be read in these terms"""
+    inner_of = lambda x: ("field", ("obj", x), roles.inner_field)
+
+    def who(e):
+        s_ = sym.contains(e, lambda t: t == ("obj", "self") or (t[0] == "ptr" and t[1] == ("P", "self")))
+        o_ = sym.contains(e, lambda t: t == ("obj", "other") or (t[0] == "ptr" and t[1] == ("P", "other")))
+        return "self" if s_ and not o_ else ("other" if o_ and not s_ else None)
+
+    def val(e, m):
+        """abstract Option<File> value: None or a file number"""
+        if e[0] in ("ref", "deref"):
+            return val(e[1], m)
+        if e[0] == "get" and e[1] == "en_passant":
+            return m["raw"][who(e)]
+        if e[0] == "field" and e[2] == epfield and who(e):
+            return m["raw"][who(e)]
+        if e[0] == "call" and e[1] in eff and who(e):
+            return m["eff"][who(e)]
+        if e[0] == "agg" and e[2] == "None":
+            return None
+        if e[0] == "agg" and e[2] == "Some":
+            v_ = val(dict(e[4])["0"], m)
+            if v_ is None:
+                raise _Unknown("Some(None)")
+            return v_
+        if e[0] == "field" and e[2] == "0" and e[1][0] == "downcast" and e[1][2] == "Some":
+            v_ = val(e[1][1], m)
+            if v_ is None:
+                raise _Unknown("payload of None")
+            return v_
+        raise _Unknown(sym.show(e)[:100])
+
+    def truth(e, m):
+        if e == sym.TRUE:
+            return True
+        if e == sym.FALSE:
+            return False
+        if e[0] == "un" and e[1] == "Not":
+            return not truth(e[2], m)
+        if e[0] == "bin" and e[1] in ("BitAnd", "BitOr"):
+            a_, b_ = truth(e[2], m), truth(e[3], m)
+            return (a_ and b_) if e[1] == "BitAnd" else (a_ or b_)
+        neg = False
+        if e[0] == "bin" and e[1] == "Ne":
+            e, neg = ("bin", "Eq", e[2], e[3]), True
+        elif e[0] == "call" and e[1].endswith("PartialEq>::ne") and len(e[2]) == 2:
+            e, neg = ("call", e[1][:-2] + "eq", e[2]), True
+        k = kernel(e)
+        r = None
+        if k is not None:
+            if k[0] == "field" and k[1] == inner_of("self") and k[2] in want_fields:
+                r = m["eqf"][k[2]]
+            elif k[0] == "ptr" and k[1] == ("P", "self") and len(k[2]) == 2 and k[2][0] == ("f", roles.inner_field) and k[2][1][1] in want_fields:
+                r = m["eqf"][k[2][1][1]]
+            elif k[0] == "get" and k[1] in m["getters"]:
+                r = m["eqf"][m["getters"][k[1]]]
+            elif k[0] == "call" and k[1] == hwe:
+                r = m["eqh"]
+            elif k[0] == "field" and k[1] == inner_of("self") and k[2] == roles.hash_field:
+                r = m["eqh"] and m["raw"]["self"] == m["raw"]["other"]        # the full hash also carries the raw file's key
+        if r is None and (e[0] == "bin" and e[1] == "Eq" or (e[0] == "call" and e[1].endswith("PartialEq>::eq"))):
+            x_, y_ = (e[2], e[3]) if e[0] == "bin" else e[2]
+            if x_[0] == "discr" or y_[0] == "discr":
+                dx = (0 if val(x_[1], m) is None else 1) if x_[0] == "discr" else (x_[1] if x_[0] == "int" else None)
+                dy = (0 if val(y_[1], m) is None else 1) if y_[0] == "discr" else (y_[1] if y_[0] == "int" else None)
+                if dx is None or dy is None:
+                    raise _Unknown(sym.show(e)[:100])
+                r = dx == dy
+            else:
+                r = val(x_, m) == val(y_, m)
+        if r is None:
+            if e[0] == "call" and e[1].rsplit("::", 1)[-1] in ("is_none", "is_some") and len(e[2]) == 1:
+                v_ = val(e[2][0], m)
+                r = (v_ is None) == (e[1].endswith("is_none"))
+            else:
+                raise _Unknown(sym.show(e)[:100])
+        return (not r) if neg else r
+
+    def holds(c, m):
+        e, v = L.lift(c[0]), c[1]
+        if e[0] == "discr":
+            d = 0 if val(e[1], m) is None else 1
+            return d == v if isinstance(v, int) else d not in v[1]
+        if not isinstance(v, int):
+            raise _Unknown("switch on %s" % sym.show(e)[:80])
+        return truth(e, m) == bool(v)
+
+    # getters that read one state field (side_to_move, castle_rights(..) ...) compare that field
+    getters = {}
+    for (n_, t_, p_, pt_) in L.templates:
+        if t_[0] == "field" and t_[2] in want_fields:
+            getters[n_] = t_[2]
+        elif t_[0] == "field" and t_[1][0] == "field" and t_[1][2] == roles.inner_field and t_[2] in want_fields:
+            getters[n_] = t_[2]
+    fields = sorted(want_fields)
+    nmodels = 0
+    import itertools
+    for bits in itertools.product((True, False), repeat=len(fields)):
+        eqf = dict(zip(fields, bits))
+        allf = all(bits)
+        for eqh in ((True,) if allf else (True, False)):              # equal fields => equal hash without ep (C10)
+            for rs in (None, 0, 1):
+                for ro in (None, 0, 1):
+                    for es in ({None, rs}):
+                        for eo in ({None, ro}):
+                            if allf and rs == ro and es != eo:
+                                continue                                 # congruence of the effective-ep helper
+                            m = {"eqf": eqf, "eqh": eqh, "raw": {"self": rs, "other": ro}, "eff": {"self": es, "other": eo}, "getters": getters}
+                            want = allf and eqh and es == eo
+                            nmodels += 1
+                            hit = 0
+                            for p in paths:
+                                if p.end != "return":
+                                    return None, "a path ends in %s" % p.end
+                                try:
+                                    if not all(holds(c, m) for c in p.conds):
+                                        continue
+                                    got = truth(L.lift(p.ret), m)
+                                except _Unknown as ex:
+                                    return None, "cannot read %s" % ex
+                                hit += 1
+                                if got != want:
+                                    return False, ("fields equal: %s, hash without en passant equal: %s, raw en-passant files (self, other): %s, effective files: %s -> same_position answers %s"
+                                                   % ({k_: v_ for k_, v_ in eqf.items()}, eqh, (rs, ro), (es, eo), got))
+                            if hit == 0:
+                                return None, "no path applies to an abstraction"
+    return True, nmodels
+
+
 def run(ctx):
     ctx.explanation = __doc__
     f = ctx.facts("A")
@@ -77,6 +216,23 @@ def run(ctx):
     want_fields = set(roles.state_fields) - {roles.hash_field, epfield}
     n_true = 0
     eff_fn = None
+    # first as a decision table over a finite abstraction (any arrangement of the comparisons, fast paths on the raw
+    # en-passant files included); the per-path kernel form below is the fallback when a decision cannot be read so
+    verdict, info = decision_table(f, L, roles, paths, eff, hwe, want_fields, epfield)
+    if verdict is True:
+        ctx.ok("same_position:decision-table", {"abstractions": info, "answer": "fields equal & hash-without-ep equal & effective en-passant files equal"})
+        used = [k_ for p in paths for c in list(p.conds) + [(p.ret,)] for k_ in eff if sym.contains(c[0], lambda y: y[0] == "call" and y[1] == k_)]
+        eff_fn = used[0] if used else None
+        n_true = sum(1 for p in paths if p.end == "return" and p.ret != sym.FALSE)
+        paths = []
+    elif verdict is False:
+        ctx.fail("same_position:decision-table", "same_position is not `all position fields equal, hash without en passant equal, effective en-passant files equal`: %s" % info, loc(body))
+        used = [k_ for p in paths for c in list(p.conds) + [(p.ret,)] for k_ in eff if sym.contains(c[0], lambda y: y[0] == "call" and y[1] == k_)]
+        eff_fn = used[0] if used else None
+        n_true = 1
+        paths = []
+    else:
+        ctx.note("same_position: decision table not applicable (%s); per-path kernel form used" % info)
     for p in paths:
         if p.end != "return":
             ctx.fail("same_position:path-end", "same_position has a path ending in %s" % p.end, loc(body))
